@@ -21,7 +21,11 @@ for m in sorted(glob.glob(os.path.join(root, "*", "meta.json"))):
     d = f"/tmp/rechk_{sid}"
     shutil.rmtree(d, ignore_errors=True)
     shutil.copytree("/repo", d, ignore=shutil.ignore_patterns(".git"))
-    p = subprocess.run(["patch", "-s", "-p1", "-i", os.path.join(os.path.dirname(m), "patch.diff")], cwd=d, capture_output=True, text=True)
+    # patch.rebased.diff: the same change re-made by hand on top of a later fix: commit that touched the same lines
+    pf = os.path.join(os.path.dirname(m), "patch.rebased.diff")
+    if not os.path.exists(pf):
+        pf = os.path.join(os.path.dirname(m), "patch.diff")
+    p = subprocess.run(["patch", "-s", "-p1", "-i", pf], cwd=d, capture_output=True, text=True)
     if p.returncode != 0:
         # the patch no longer applies to the current /repo (a later fix touched the same lines)
         j["recheck"] = {"at": time.strftime("%Y-%m-%dT%H:%M:%SZ", time.gmtime()), "error": "patch does not apply to the current tree: " + (p.stdout + p.stderr)[-200:]}
